@@ -1,0 +1,7 @@
+//go:build !verif
+
+package reflection
+
+func verifYield(string) {}
+
+func verifWrapNotify(f func()) func() { return f }
